@@ -42,7 +42,10 @@ def gen_params(rng: random.Random):
         "multi_operator_containers": True if policy == "priority-pool" else rng.random() < 0.5,
         "allow_memory_overcommit": policy == "overbook", "random_seed": rng.randrange(10**6),
     }
-    return params
+    # a parameter set is a mapping (a TOML table): the order of its keys means nothing
+    keys = list(params)
+    rng.shuffle(keys)
+    return {k: params[k] for k in keys}
 
 
 def run_random(seed, tid):
@@ -50,6 +53,8 @@ def run_random(seed, tid):
     params = gen_params(rng)
     events, stats, exc = simrec.record_run(params, tid=tid, mode="obs", U=1000, sparse=True,
                                            meta={"seed": seed, "driver": "C", "policy": params["scheduler_algo"], "params": params})
+    # the configured class probabilities (interactive, query, batch) in millionths, for the clauses about the arrivals of a whole run
+    events[0]["cfg"]["probs"] = [int(round(params[k] * 10**6)) for k in ("interactive_prob", "query_prob", "batch_prob")]
     return events
 
 
@@ -111,6 +116,6 @@ def gen_traces(n, seed, frac_uncontended=0.25, procs=None):
         for i in range(0, m, step):
             jobs.append((kind, seeds[i:i + step], tid + i))
         tid += m
-    with mp.get_context("fork").Pool(procs or common.NCPU) as pool:
+    with common.pool(procs or common.NCPU) as pool:
         out = pool.map(_chunk, jobs)
     return [tr for ch in out for tr in ch]
